@@ -243,6 +243,12 @@ class IrToPythonCompiler:
             with self.indented():
                 self.emit("self.stack.pop()")
 
+        with self.func_def("stack_top(self):"):
+            self.emit("return len(self.stack)")
+
+        with self.func_def("reset_stack(self, top):"):
+            self.emit("del self.stack[top:]")
+
     def generate(self, ir_mod):
         """Write ir-code to file f"""
         self.mod_name = ir_mod.name
@@ -347,6 +353,7 @@ class IrToPythonCompiler:
 
         This is a non-optimal, but always working strategy.
         """
+        self.emit("_irpy_stack_top = rt.stack_top()")
         self.emit("_irpy_prev_block = None")
         self.emit(f"_irpy_current_block = '{ir_function.entry.name}'")
         self.emit("while True:")
@@ -379,8 +386,10 @@ class IrToPythonCompiler:
             self.emit(f"{phi_names} = {value_names}")
 
     def reset_stack(self):
-        self.emit(f"rt.free({self.stack_size})")
-        self.stack_size = 0
+        # Release all stack memory allocated by this activation. The amount
+        # is not known statically: an alloc can be in a block which is not
+        # executed, or which is executed more than once.
+        self.emit("rt.reset_stack(_irpy_stack_top)")
 
     def emit_jump(self, block: ir.Block, target: ir.Block):
         """Perform a jump from block to target in block mode."""
